@@ -7,6 +7,8 @@
 // @h c10_int_q_excl_uint8 tier=quick
 // @h c10_int_q_default_uint8 tier=quick
 // @h c10_int_q_default_none tier=quick
+// @h c10_int_q_bounds4_none tier=quick
+// @h c10_int_q_bounds4_uint8 tier=quick
 // @h c10_int_t_none tier=thorough
 // @h c10_int_t_unknown tier=thorough
 // @h c10_int_t_int8 tier=thorough
@@ -242,6 +244,9 @@ int_harness!(c10_int_q_excl_uint8, Some("uint8"), 0b001100);
 // quick tier: default with inclusive bounds
 int_harness!(c10_int_q_default_uint8, Some("uint8"), 0b100011);
 int_harness!(c10_int_q_default_none, None, 0b100011);
+// quick tier: all four bounds together (inclusive and exclusive interact)
+int_harness!(c10_int_q_bounds4_none, None, 0b001111);
+int_harness!(c10_int_q_bounds4_uint8, Some("uint8"), 0b001111);
 
 // thorough tier: all six keywords symbolic, every format class
 int_harness!(c10_int_t_none, None, 0b111111);
